@@ -60,6 +60,16 @@ def walk_over(f, listroot_pred):
             if listroot_pred(rp):
                 # the element variable is bound to *__begin of that range: accept when there is exactly one range loop
                 out.append((n, rp))
+        if not rng:
+            # the same loop written with iterators: a local initialised from <list>.begin() / cbegin()
+            for vd in f.var_decls().values():
+                init = vd.get('init')
+                x = f.value_source(init) if init else None
+                if x is not None and f.is_call(x) and (f.callee(x) or {}).get('name') in ('begin', 'cbegin') and f.call_obj(x):
+                    rp = path(f, f.call_obj(x), resolve_refs=False)
+                    if listroot_pred(rp):
+                        out.append((n, rp))
+                        break
     return out
 
 
@@ -282,14 +292,12 @@ def check_reset(ctx, tu, info, f):
     detail = ''
     if ok_loop:
         n = removes[0]
-        # range is this.itemList: the loop's __range variable is initialised from this.itemList
-        rng = [vd for vd in f.var_decls().values() if vd['name'].startswith('__range') and vd.get('init') and path(f, vd['init'], resolve_refs=False) == ('this', '.itemList')]
-        ok_loop = len(rng) == 1
-        # arguments derive from the loop element
+        # the loop runs over this.itemList (range-for or the equivalent iterator loop) and the arguments derive from the loop element
+        ok_loop = bool(direct) and any(x[0] == n for x in direct)
         args = f.call_args(n)
         roots = {argpath(f, a)[0] for a in args}
-        ok_loop = ok_loop and len(roots) == 1 and list(roots)[0].startswith('v:item')
-        detail = 'range over itemList: %s, args from %s' % (len(rng) == 1, sorted(roots))
+        ok_loop = ok_loop and len(roots) == 1 and list(roots)[0].startswith('v:')
+        detail = 'loop over itemList: %s, args from %s' % (bool(direct), sorted(roots))
     ctx.ob('C15.P2', f, 'reset() removes every recorded item from the target (walk over itemList)', ok_loop, detail=detail)
     ok_clear = len(clears) == 1 and ok_loop and not f.block_reaches(clears[0]['pos'][0], f.pos(removes[0])[0]) and \
         f.pos_postdominates(clears[0]['pos'], (f.entry, 0))
@@ -384,22 +392,19 @@ def check_remove(ctx, tu, info, f):
         ok = ok and any(root_var_id(argpath(f, a)) == hp for a in f.call_args(e)) and any(root_var_id(argpath(f, a)) == hp for a in f.call_args(rm[0]))
     ctx.ob('C15.P3', f, 'remove erases the record first and detaches from the target only a listener it had recorded', ok)
     if ok:
-        # "reports whether it was attached": where the record existed, the answer is the target's own answer (the listener may have been
-        # detached behind the remover's back, e.g. by removing itself directly from the list)
-        bad = []
-        for r in f.return_nodes():
-            ks = f.kids(r)
-            if not ks or not f.pos_reaches(f.pos(rm[0]), f.pos(r)):
-                continue
-            v = f.value_source(ks[0])
-            if f.nodes[v]['cls'] == 'DeclRefExpr' and f.decl(v).get('kind') == 'var':
-                vd = f.var_decls().get(f.decl(v)['id'])
-                if vd and vd.get('init'):
-                    v = f.value_source(vd['init'])
-            if v != rm[0]:
-                bad.append(f.nloc(r))
-        ctx.ob('C15.P3', f, 'after detaching, remove reports the target\'s own result', not bad,
-               detail='return at %s does not return what the target\'s %s reported' % (', '.join(bad), want), key_detail='remove result')
+        # "reports whether it was attached": the answer is "it was recorded here, and the target says it removed it" (the listener may have
+        # been detached behind the remover's back, e.g. by removing itself directly from the list) - as a formula over the two calls
+        try:
+            fm = F.formula(f, inline=False)
+            ats = F.atoms(fm)
+            ea = [a for a in ats if 'removeHandleFromScopedRemoverItemList' in a]
+            ra = [a for a in ats if a not in ea]
+            okres = len(ea) == 1 and len(ra) == 1 and F.equivalent(fm, ('and', ('atom', ea[0]), ('atom', ra[0])))[0]
+            shown = F.show(fm)
+        except F.Unsupported as ex:
+            okres, shown = False, 'not extractable (%s)' % ex
+        ctx.ob('C15.P3', f, 'after detaching, remove reports the target\'s own result', okres,
+               detail='result: %s' % shown, key_detail='remove result')
     for g in tu.fns_named('removeHandleFromScopedRemoverItemList'):
         si = info.scopes(g)
         er = [n for n in g.calls() if (g.callee(n) or {}).get('name') == 'erase']
